@@ -31,6 +31,7 @@ import ZygoVerif.Model.StackEffect
 import ZygoVerif.Model.LegacyBalance
 import ZygoVerif.Proofs.Balanced
 import ZygoVerif.Proofs.GenBalanced
+import ZygoVerif.Proofs.VMRest
 import ZygoVerif.Generated.InstrSet
 namespace ZygoVerif.C04
 open ZygoVerif.Bal ZygoVerif.VM ZygoVerif.Core
@@ -267,5 +268,60 @@ example : ∃ code t gs', okAs [Expr.def_ "a" (.int 1),
                (.begin_ [.set_ "a" (.sym "y"), .arr [.sym "x", .sym "y"]])]] { fns := [] }
       = Except.ok ((code, t), gs') ∧ code.length = 29 :=
   ⟨_, _, _, by decide, rfl, by decide⟩
+
+/-! ## The property on the VM model -/
+
+/-- **run_at_rest**, full statement: an interpreter at rest that evaluates a text to a value is
+at rest afterwards (data stack empty, only the global scope, no return address, no loop record,
+pc at the end of `mainfunc`). -/
+def RunAtRest : Prop :=
+  ∀ (fuel : Nat) (es : List Expr) (s s' : St) (v : String) (tr : List String) (d : String) (alive : Bool),
+    AtRest s → runText fuel es s = (Outcome.done "ok" v tr d, s', alive) → AtRest s'
+
+/-- **one_at_a_time**, full statement: evaluating `es₁ ++ es₂` as one text gives the value that
+evaluating `es₁` and then `es₂` gives (whenever all three evaluations return a value). -/
+def OneAtATime : Prop :=
+  ∀ (fuel : Nat) (es₁ es₂ : List Expr) (s : St), AtRest s → es₂ ≠ [] →
+    ∀ v tr d s' a v₁ tr₁ d₁ s₁ a₁ v₂ tr₂ d₂ s₂ a₂,
+      runText fuel (es₁ ++ es₂) s = (Outcome.done "ok" v tr d, s', a) →
+      runText fuel es₁ s = (Outcome.done "ok" v₁ tr₁ d₁, s₁, a₁) →
+      runText fuel es₂ s₁ = (Outcome.done "ok" v₂ tr₂ d₂, s₂, a₂) → v = v₂
+
+/-- **eval_empty_nil** (proved, for every state at rest and every fuel ≥ 2): the empty text
+evaluates to nil — never to a value an earlier evaluation left behind — the four depths are
+what they were, and the interpreter is at rest afterwards. -/
+theorem eval_empty_nil (s : St) (fuel : Nat) (h : AtRest s) :
+    ∃ s', runText (fuel + 2) [] s = (Outcome.done "ok" "nil" [] (depths s), s', true) ∧ AtRest s' :=
+  eval_empty s fuel h
+
+/-- the fresh interpreter is at rest (non-vacuity of `AtRest`) -/
+example : AtRest initSt := ⟨rfl, rfl, rfl, rfl, rfl, by decide⟩
+
+/-- **run_at_rest_partial**: `RunAtRest` for the empty text (`eval_empty_nil`). What the general
+statement needs on top of the theorems above: (1) a refinement lemma "every `VM.exec` step is
+a `Bal.CStep` of the corresponding `BInstr`" (the effect table `Bal.eff` read off the model VM
+instead of off vm.go), (2) the calling contract for nested runs by induction on the call depth
+(`operand_returns_one_value` is its base case for helper functions), (3) `GenBalanced` for the
+forms not yet covered. Until then the statement is held, on the real interpreter, by the depth
+oracle of channel `rest` on every run. -/
+theorem run_at_rest_partial (s : St) (fuel : Nat) (h : AtRest s) :
+    ∀ s' v tr d alive, runText (fuel + 2) [] s = (Outcome.done "ok" v tr d, s', alive) → AtRest s' := by
+  intro s' v tr d alive hr
+  obtain ⟨s'', he, hrest⟩ := eval_empty s fuel h
+  rw [he] at hr
+  cases hr
+  exact hrest
+
+/-- **one_at_a_time_partial** (the generator's half): the code of two texts evaluated together
+is the code of the first, ONE `pop`, the code of the second — the `pop` does what the `Run`
+between the two separate evaluations does (pop the first text's single value). The VM half
+(that the first text's code leaves exactly one value) is `checker_sound` + `gen_balanced…`. -/
+theorem one_at_a_time_partial (cs ds : List (List Instr)) (hc : cs ≠ []) (hd : ds ≠ [])
+    (hne : ∀ c ∈ cs, c ≠ []) :
+    asmBegin (cs ++ ds) = asmBegin cs ++ [Instr.pop] ++ asmBegin ds :=
+  asmBegin_append cs ds hc hd hne
+
+example : asmBegin ([[Instr.push .nil], [Instr.dup]] ++ [[Instr.envToStack "a"]])
+    = asmBegin [[Instr.push .nil], [Instr.dup]] ++ [Instr.pop] ++ asmBegin [[Instr.envToStack "a"]] := rfl
 
 end ZygoVerif.C04
